@@ -11,6 +11,7 @@ package main
 // names the batch.
 
 import (
+	"math"
 	"bytes"
 	"encoding/binary"
 	"encoding/xml"
@@ -429,6 +430,27 @@ func init() {
 			}
 			if r.chance(1, 3) && k >= 4 { // touching / collinear configurations
 				copy(out[2].(geom.Coord), out[0].(geom.Coord))
+			}
+			if k >= 4 && r.chance(1, 3) {
+				// proper crossings whose double-precision intersection degenerates (nearly parallel long
+				// segments on a decimal grid, or magnitudes whose products overflow): the rarely taken
+				// fallback paths of the intersector
+				a, b, c, d := out[0].(geom.Coord), out[1].(geom.Coord), out[2].(geom.Coord), out[3].(geom.Coord)
+				if r.chance(1, 2) {
+					x0, y0 := float64(r.Intn(100000))/10, float64(r.Intn(100000))/10
+					dx, dy := float64(1+r.Intn(100000))/10, float64(1+r.Intn(100000))/10
+					a[0], a[1] = x0, y0
+					b[0], b[1] = x0+dx, y0+dy
+					// second segment: almost the same direction, crossing near the middle
+					c[0], c[1] = x0+float64(r.Intn(3))/10, y0-float64(1+r.Intn(3))/10
+					d[0], d[1] = x0+dx-float64(r.Intn(3))/10, y0+dy+float64(1+r.Intn(3))/10
+				} else {
+					sc := math.Ldexp(1, 505+r.Intn(10))
+					a[0], a[1] = -sc*float64(1+r.Intn(9)), -sc*float64(1+r.Intn(9))
+					b[0], b[1] = sc*float64(1+r.Intn(9)), sc*float64(1+r.Intn(9))
+					c[0], c[1] = -sc*float64(1+r.Intn(9)), sc*float64(1+r.Intn(9))
+					d[0], d[1] = sc*float64(1+r.Intn(9)), -sc*float64(1+r.Intn(9))
+				}
 			}
 			return out
 		}
